@@ -30,17 +30,30 @@ def expireatCore (ctx : Ctx) (cis : List CI) (k : Nat) (ts : Int) : Except Err B
   else if ts ≤ ctx.time then ret (.int 1) (cis.set k (c.setValue none))
   else ret (.int 1) (cis.set k (c.setExpire (some ts)))
 
+/-- `_check_expire_ms`: the deadline `ms + basetime_ms` must be a signed 64-bit number of
+milliseconds -/
+def expireMsBad (ms basetimeMs : Int) : Bool := ms + basetimeMs ≥ 2 ^ 63 || ms < -(2 ^ 63)
+
+/-- `int(self._db.time * 1000)` (the clock is never negative) -/
+def basetimeMs (ctx : Ctx) : Int := ctx.time / TICKS_MS
+
 def expire : Body := fun ctx args cis =>
   match args with
-  | [.key k, .int s] => expireatCore ctx cis k (ctx.time + s * TICKS)
+  | [.key k, .int s] =>
+    if expireMsBad (s * 1000) (basetimeMs ctx) then .error (Msgs.fmt1 Msgs.INVALID_EXPIRE_MSG "expire")
+    else expireatCore ctx cis k (ctx.time + s * TICKS)
   | _ => .error "model: bad args"
 def expireat : Body := fun ctx args cis =>
   match args with
-  | [.key k, .int s] => expireatCore ctx cis k (s * TICKS)
+  | [.key k, .int s] =>
+    if expireMsBad (s * 1000) 0 then .error (Msgs.fmt1 Msgs.INVALID_EXPIRE_MSG "expireat")
+    else expireatCore ctx cis k (s * TICKS)
   | _ => .error "model: bad args"
 def pexpire : Body := fun ctx args cis =>
   match args with
-  | [.key k, .int ms] => expireatCore ctx cis k (ctx.time + ms * TICKS_MS)
+  | [.key k, .int ms] =>
+    if expireMsBad ms (basetimeMs ctx) then .error (Msgs.fmt1 Msgs.INVALID_EXPIRE_MSG "pexpire")
+    else expireatCore ctx cis k (ctx.time + ms * TICKS_MS)
   | _ => .error "model: bad args"
 def pexpireat : Body := fun ctx args cis =>
   match args with
